@@ -149,6 +149,10 @@ pub fn replay(fctx: &fuzz::Ctx, seed: u64, reps: usize, rep: &mut Report, trace:
             let name = format!("generic:{id}");
             let mut base = fuzz::base_for(&mut rng, fctx, &name);
             let behaviour = ["valid", "valid", "foreign", "partial", "silent", "malformed", "dedicated"][rng.gen_range(0 .. 7)];
+            // every run includes, for every auto-detecting / multi-connection entry, the case "port omitted, silent server,
+            // no extra settings" (all probes of all three paths are then visible; F32 is this case for `minecraft`)
+            let forced = n == 0;
+            let behaviour = if forced { "silent" } else { behaviour };
             let is_valve = matches!(game.protocol, Protocol::Valve(_) | Protocol::PROPRIETARY(P::TheShip));
             match behaviour {
                 "foreign" | "dedicated" if is_valve => {
@@ -197,7 +201,7 @@ pub fn replay(fctx: &fuzz::Ctx, seed: u64, reps: usize, rep: &mut Report, trace:
             let script = base.script();
             let ip: IpAddr = "127.0.0.1".parse().unwrap();
             // caller-supplied settings: none (then the module path is comparable too), or extra settings with some fields unset
-            let extras: Option<ExtraRequestSettings> = match rng.gen_range(0 .. 6) {
+            let extras: Option<ExtraRequestSettings> = match if forced { 5 } else { rng.gen_range(0 .. 6) } {
                 0 => Some(ExtraRequestSettings::default()),
                 1 => Some(ExtraRequestSettings::default().set_gather_players(gamedig::protocols::types::GatherToggle::Skip)),
                 2 => Some(ExtraRequestSettings::default().set_check_app_id(false).set_gather_rules(gamedig::protocols::types::GatherToggle::Enforce)),
